@@ -50,6 +50,8 @@ WALL_CTOR = 20.0        # generous wall backstops (seconds); the deterministic m
 WALL_ENUM = 90.0
 N_RANDOM = 20000
 MEM_EVERY = 8           # tracemalloc on every 8th plan (and on every directed witness plan)
+RUNAWAY_LIMIT = {'quick': 2000, 'thorough': 12000}   # stop executing after that many runaway cases (each costs the full bound;
+                        # the unchanged tree has about 460 / 3600); the verdict is a violation long before
 MAX_ENUM_FAILURES = 8
 
 # small corpus seeds (relative to the repository): relocatable object without program headers, section-less executable
@@ -217,6 +219,8 @@ def apply_plan(seed, patches, trunc):
 # ------------------------------------------------------------------ worker pool
 _SEEDS = {}
 _NOBUDGET = False
+_RUNAWAYS = None        # multiprocessing.Value shared by the forked workers
+_LIMIT = 1 << 30
 
 
 def _init_worker():
@@ -231,8 +235,14 @@ def _work(chunk):
     core.use_repo()
     out = []
     for idx, s, patches, trunc, mem in chunk:
+        if _RUNAWAYS is not None and _RUNAWAYS.value >= _LIMIT:
+            out.append((idx, None))                      # not executed: too many runaway cases already
+            continue
         data = apply_plan(_SEEDS[s], patches, trunc) if s is not None else bytes(patches)
         r = execute(data, measure_mem=mem, budget=not _NOBUDGET)
+        if _RUNAWAYS is not None and ((r['ctor'] == 'OK' and r['enum'] != 'ok') or r['ctor'] in ('budget', 'timeout', 'memory')):
+            with _RUNAWAYS.get_lock():
+                _RUNAWAYS.value += 1
         out.append((idx, r))
     return out
 
@@ -240,6 +250,8 @@ def _work(chunk):
 def run_all(jobs):
     """jobs: [(idx, seed index | None, patches | raw bytes, trunc, measure memory?)] -> {idx: result}"""
     import multiprocessing
+    global _RUNAWAYS
+    _RUNAWAYS = multiprocessing.Value('i', 0)
     res = {}
     size = 64
     chunks = [jobs[i:i + size] for i in range(0, len(jobs), size)]
@@ -361,7 +373,8 @@ def _random_strings(run, seeds):
 
 
 def check(run):
-    global _SEEDS, _NOBUDGET
+    global _SEEDS, _NOBUDGET, _LIMIT
+    _LIMIT = RUNAWAY_LIMIT[run.tier]
     from concurrent.futures import ThreadPoolExecutor
     calibrate = bool(os.environ.get('VERIF_C19_CALIBRATE'))
     _NOBUDGET = calibrate
@@ -492,6 +505,8 @@ def check(run):
     base = {}
     for idx in range(nbase):
         r = results[idx]
+        if r is None:
+            raise core.MachineryError('unmodified seeds were not executed')
         base[meta[idx]['s']] = (r['reads'], r['bytes'], tuple(r['excs']))
         if r['ctor'] != 'OK' or r['enum'] != 'ok':
             raise core.MachineryError('unmodified seed %s does not pass: %r' % (sinfo[meta[idx]['s']]['id'], r))
@@ -544,8 +559,14 @@ def check(run):
             run.mismatch('construct', '%s:%s' % (r['ctor'], step), case_of(mt, r), 'success or an ELFError within the work bound',
                          '%s reads=%d bytes=%d' % (r['ctor'], r['reads'], r['bytes']))
 
+    skipped = sum(1 for r in results.values() if r is None)
+    if skipped:
+        run.notes.append('%d cases were not executed: more than %d runaway cases before them (each costs the full work bound)' % (skipped, _LIMIT))
+        run.extra['not_executed_after_runaway_limit'] = skipped
     for idx in range(nbase, nplans):
         mt, r = meta[idx], results[idx]
+        if r is None:
+            continue
         tally(r)
         s = mt['s']
         saw = r['ctor'] != 'OK' or (r['reads'], r['bytes'], tuple(r['excs'])) != base[s] or r['enum'] != 'ok'
@@ -572,6 +593,8 @@ def check(run):
                 '%s: reads=%d bytes=%d peak=%d %s' % (r['enum'], r['reads'], r['bytes'], r['peak'], r['msg'] or ''))
     for i, idx in enumerate(range(nplans, len(meta))):
         mt, r = meta[idx], results[idx]
+        if r is None:
+            continue
         tally(r)
         model = rmodel[i + 1]['m']
         run.count(core.digest(['rand', core.b64(mt['raw'])]), nontrivial=model[1] not in ('magic',),
